@@ -43,6 +43,19 @@ class Report:
     def inconclusive(self, rule, key, desc, **kw):
         return self.add(rule, key, INCONCLUSIVE, desc, **kw)
 
+    def run(self, fn, *args, **kw):
+        """run one table / lemma family; an exception inside the checker itself is not evidence about the repository: it is recorded as
+        INCONCLUSIVE (with the traceback tail) and the remaining tables still run"""
+        import traceback
+        try:
+            return fn(*args, **kw)
+        except Exception as e:      # noqa: BLE001 — deliberate catch-all at the table boundary
+            tb = traceback.format_exc().strip().splitlines()
+            rule = next((a for a in args[2:] if isinstance(a, str)), kw.get("rule", "checker"))
+            self.add(str(rule), "checker-error/%s" % getattr(fn, "__name__", "?"), INCONCLUSIVE,
+                     "internal error in %s: %s: %s  [%s]" % (getattr(fn, "__name__", "?"), type(e).__name__, e, " | ".join(tb[-4:-1])))
+            return None
+
     def floor(self, name, expected, found):
         self.floors[name] = [expected, found]
         if found < expected:
